@@ -420,6 +420,15 @@ def runLine (op : String) (impl : String) : Result :=
   | "unf-type" :: args => opUnfType args impl
   | "unf-seq" :: args => opUnfSeq args impl
   | "fu" :: args => opFu args impl
+  | "foldpos" :: _ =>
+    -- Folders on the value / pointer receiver of types of every kind (outside the menagerie and the
+    -- mirror), folded in every position: the folder's marker and nothing of the value itself
+    { model := some "marker",
+      fails :=
+        if impl.startsWith "plain" then [s!"C12 custom-folder-ignored-in-this-position {impl.take 200}"]
+        else if impl.startsWith "err" then [s!"C12 fold-error-on-a-value-with-a-custom-folder {impl.take 200}"]
+        else if impl == "panic" then ["C12 fold-panic-on-a-value-with-a-custom-folder", "C15 fold-panic-on-a-value-with-a-custom-folder"]
+        else [] }
   | "unf-user" :: _ => opUnfUser impl
   | "unf-userval" :: _ =>
     -- a record written by the harness' own writer, unfolded by an Unfolder configured with user
